@@ -421,31 +421,106 @@ func (c *Ctx) exporterSeedMirror(r *Report, fn *ssa.Function) {
 		return
 	}
 	call := calls[0].(*ssa.Call)
-	seed, ok := call.Call.Args[1].(*ssa.Phi)
-	if !ok {
-		r.Unk("exporter-seed", short(fn), c.ipos(call), "seed is not a role-dependent value")
-		return
+	// RFC 5705 4: label + client_random + server_random, whichever side exports
+	want := map[bool]string{
+		true:  "label[*] localRandom[31..0] remoteRandom[31..0]",
+		false: "label[*] remoteRandom[31..0] localRandom[31..0]",
 	}
-	for _, role := range []bool{true, false} {
-		rl := role
-		w := (&Walk{Fn: fn, Assume: assumeAll(atomAssume{mLoad("dtls.State", "isClient"), vBool(rl)})}).FromEntry()
-		_ = w
-	}
-	// each phi edge is append(append(label, X...), Y...): client: local, remote; server: remote, local
 	var got []string
-	for _, e := range seed.Edges {
-		l, err := c.LayoutOf(e, call, 0)
+	for _, role := range []bool{true, false} {
+		as := []atomAssume{{mLoad("dtls.State", "isClient"), vBool(role)}}
+		l, err := c.pathLayout(fn, as, call.Call.Args[1], call, 0)
+		key := fmt.Sprintf("%s:isClient=%v", short(fn), role)
 		if err != nil {
-			r.Unk("exporter-seed", short(fn), c.ipos(call), "seed layout not extractable: "+err.msg)
-			return
+			r.Unk("exporter-seed", key, c.ipos(call), "seed layout not extractable: "+err.msg)
+			continue
 		}
-		got = append(got, layoutString(l))
+		g := layoutString(l)
+		got = append(got, g)
+		// reduce the random descriptors to the State field they are marshalled from
+		norm := g
+		for _, f := range []string{"localRandom", "remoteRandom"} {
+			norm = strings.ReplaceAll(norm, "(*pkg/protocol/handshake.Random).MarshalFixed(&s."+f+")", f)
+		}
+		r.Check(norm == want[role], "exporter-seed", key, c.ipos(call), "seed = "+g, "exporter seed deviates from RFC 5705 4 (label + client_random + server_random): got ["+norm+"] want ["+want[role]+"]")
 	}
-	sort.Strings(got)
-	// RFC 5705 4: label + client_random + server_random
 	r.Extra["exporter_seed_layouts"] = got
-	okSeed := len(got) == 2
-	r.Check(okSeed, "exporter-seed", short(fn), c.ipos(call), fmt.Sprintf("seed variants: %v", got), "exporter seed is not built in two role-mirrored variants")
+}
+
+// pathLayout extracts the byte layout of v as it is at instruction `at` of fn on the paths
+// allowed by the assumptions `as` (phis are resolved by the path taken; all such paths must
+// agree). A value produced by a module helper is described from the helper's return value,
+// explored under the same assumptions.
+func (c *Ctx) pathLayout(fn *ssa.Function, as []atomAssume, v ssa.Value, at ssa.Instruction, depth int) ([]seg, *layoutErr) {
+	if depth > 3 {
+		return nil, &layoutErr{"helper nesting too deep"}
+	}
+	if call, ok := v.(*ssa.Call); ok {
+		if g := call.Call.StaticCallee(); g != nil && len(g.Blocks) > 0 && g.Pkg != nil && strings.HasPrefix(g.Pkg.Pkg.Path(), modPath) && g.Signature.Results().Len() == 1 {
+			w := (&Walk{Fn: g, Assume: assumeAll(as...)}).FromEntry()
+			var out []seg
+			seen := ""
+			for _, ro := range w.Returns {
+				var l []seg
+				var err *layoutErr
+				withPath(w, func() { l, err = c.pathLayoutAt(ro.Raw[0], ro.Ret, ro.RawEnv) })
+				if err != nil {
+					return nil, err
+				}
+				s := layoutString(l)
+				if seen != "" && s != seen {
+					return nil, &layoutErr{"helper " + short(g) + " returns different layouts on different paths: [" + seen + "] / [" + s + "]"}
+				}
+				seen, out = s, l
+			}
+			if seen == "" {
+				return nil, &layoutErr{"helper " + short(g) + " has no return under the assumptions"}
+			}
+			return out, nil
+		}
+	}
+	var out []seg
+	seen := ""
+	var lerr *layoutErr
+	w := &Walk{Fn: fn, Assume: assumeAll(as...)}
+	w.VisitRaw = func(in ssa.Instruction, _ Env, raw map[*ssa.Phi]ssa.Value) bool {
+		if in != at || lerr != nil {
+			return true
+		}
+		var l []seg
+		var err *layoutErr
+		withPath(w, func() { l, err = c.pathLayoutAt(v, at, raw) })
+		if err != nil {
+			lerr = err
+			return true
+		}
+		s := layoutString(l)
+		if seen != "" && s != seen {
+			lerr = &layoutErr{"different layouts on different paths: [" + seen + "] / [" + s + "]"}
+		}
+		seen, out = s, l
+		return true
+	}
+	w.FromEntry()
+	if lerr != nil {
+		return nil, lerr
+	}
+	if seen == "" {
+		return nil, &layoutErr{"the use is unreachable under the assumptions"}
+	}
+	return out, nil
+}
+
+func (c *Ctx) pathLayoutAt(v ssa.Value, at ssa.Instruction, raw map[*ssa.Phi]ssa.Value) (l []seg, err *layoutErr) {
+	withPhis(raw, func() {
+		if p, ok := v.(*ssa.Phi); ok {
+			if rv, ok := raw[p]; ok {
+				v = rv
+			}
+		}
+		l, err = c.LayoutOf(v, at, 0)
+	})
+	return
 }
 
 // ruleVersion13Refused (C19): DTLS 1.3 state is refused by serialize, UnmarshalBinary,
